@@ -16,6 +16,7 @@ TRUSTED = ['Python bytes.split/join as the independent reference (norm, want) of
 
 LINE_LENS = [0, 1, 2, 3, 1021, 1022, 1023, 1024, 1025, 1026, 2047, 2048, 2049, 4093, 4094, 4095, 4096, 4097, 4098,
              8191, 8192, 8193, 20000]
+CHUNK = [1024]
 COUNTS = [0, 1, 2, 3, 511, 512, 513, 514, 1023, 1024, 1025, 1026, 2049]
 
 
@@ -101,17 +102,29 @@ def content_of(bodies, last_nl):
     return c
 
 
+def rd_chunk():
+    """size of lbuf_rd's read buffer as the translator found it in the current sources (records longer
+    than the buffer would be truncated by SOCK_SEQPACKET, which a regular file never does)"""
+    try:
+        import re
+        m = re.search(r'Definition RD_CHUNK : Z := (\d+)%Z', open(os.path.join(vlib.COQ, 'GenConsts.v')).read())
+        return max(1, int(m.group(1)))
+    except Exception:
+        return 1024
+
+
 def chunking(rng, n, small_ok):
-    """chunk sizes (each 1..1024) summing to n, as successive read(2) results."""
+    """chunk sizes (each 1..RD_CHUNK) summing to n, as successive read(2) results."""
+    C = CHUNK[0]
     style = rng.choice(['full', 'full', 'rand', 'edge', 'tiny' if small_ok else 'rand'])
     out = []
     while n > 0:
         if style == 'full':
-            c = 1024
+            c = C
         elif style == 'rand':
-            c = rng.range(1, 1024)
+            c = rng.range(1, C)
         elif style == 'edge':
-            c = rng.choice([1, 1023, 1024, 1024, 512, 2])
+            c = rng.choice([1, max(1, C - 1), C, C, max(1, C // 2), 2])
         else:
             c = rng.range(1, 3)
         c = min(c, n)
@@ -334,6 +347,8 @@ def run(ctx):
     vi = vlib.build_vi()
     model = ctx.model('io')
     tmp = vlib.tmpdir()
+    CHUNK[0] = rd_chunk()
+    res.extra['rd_chunk'] = CHUNK[0]
 
     cases = []
     if ctx.replay:
@@ -483,7 +498,7 @@ def shrink_case(vi, case):
         if not last_nl and body.endswith(b'\n'):
             body = body[:-1]
         c['content'] = body.hex()
-        c['chunks'] = [1024] * (len(body) // 1024) + ([len(body) % 1024] if len(body) % 1024 else [])
+        c['chunks'] = [1] * len(body) if len(body) < 3000 else [CHUNK[0]] * (len(body) // CHUNK[0]) + ([len(body) % CHUNK[0]] if len(body) % CHUNK[0] else [])
         n = len(sub)
         c['b'], c['e'] = min(case['b'], max(0, n - 1)), min(case['e'], n)
         if 'r' in c:
